@@ -52,3 +52,16 @@ def choose(sym, n):
         if sym == i:
             return i
     assume(False)
+
+
+def untraced(fn, *a, **k):
+    """Run fn outside CrossHair's tracer.  Only for code whose inputs are concrete on the current path (after pinned()/
+    choose()): the result is identical, the interpreter overhead of tracing is saved.  Identity in plain Python."""
+    try:
+        from crosshair.tracers import NoTracing, is_tracing
+    except Exception:
+        return fn(*a, **k)
+    if not is_tracing():
+        return fn(*a, **k)
+    with NoTracing():
+        return fn(*a, **k)
